@@ -535,5 +535,16 @@ def rule_w5(repo):
     return res
 
 
+def rule_w6(repo):
+    """Every parser entry point finishes with type inference: what is read back is what type inference
+    returns.  The fixpoint of its final expansion (C08.U8) is part of the round trip."""
+    from .c08 import rule_u8
+    r = rule_u8(repo)
+    res = RuleResult('C07.W6', 'the term that is read back has no internal type variable left: type inference expands its table to a fixpoint', floor=1)
+    for i in r.instances:
+        res.add(i.key, i.ok, i.detail, i.loc)
+    return res
+
+
 def rules(repo):
-    return [rule_w1(repo), rule_w2(repo), rule_w3(repo), rule_w4(repo), rule_w5(repo)]
+    return [rule_w1(repo), rule_w2(repo), rule_w3(repo), rule_w4(repo), rule_w5(repo), rule_w6(repo)]
